@@ -408,6 +408,23 @@ func runC19(c *RuleCtx) {
 		c.Min["R05.1"] = 11
 		c.Min["R05.2"] = 19
 	}
+	// the replay of GRAFT/PRUNE events rebuilds the mesh only if nothing else writes the mesh map: Join hands the
+	// fanout map over as the mesh and must drop the fanout entry, or the heartbeat's fanout maintenance edits the mesh
+	// through the alias without any trace event (C07 R07.4 row, re-evaluated here)
+	{
+		sub := &RuleCtx{P: c.P, Prop: c.Prop, Min: map[string]int{}}
+		runC07(sub)
+		n := 0
+		for _, o := range sub.Obs {
+			if o.Rule == "R07.4" && strings.Contains(o.Key, "Join removes the topic's fanout entry") {
+				c.Obs = append(c.Obs, o)
+				n++
+			}
+		}
+		if n == 0 {
+			c.Undecided("R07.4", "(*GossipSubRouter).Join", "fanout entry dropped when it becomes the mesh", nil, "no R07.4 obligation on the fanout entry found")
+		}
+	}
 	c.Min["R19.1"] = 60
 	c.Min["R19.2"] = 16
 	c.Min["R19.3"] = 7
